@@ -472,7 +472,7 @@ def check_c10(pid, tier, seed, replay=None):
         res = run_batch(pid, tier, with_pages(scs), bindir)
         mc, extra_viol = fmc.result()
     readmodel = model_fidelity(res, 'VFRead_Trace'); readmodel['design'] = mc
-    rules = READ_RULES | OPEN_RULES | SAFETY_RULES | SEEK_RULES | {'SameUnderAnyReadSchedule'}
+    rules = READ_RULES | OPEN_RULES | SAFETY_RULES | {'SameUnderAnyReadSchedule'}      # (what a seek must do is C07's and C08's business; here only that it does the same under every schedule)
     return finish(pid, tier, seed, 'model_checking', scs, res, rules, t0,
       'scenario = complete decode of one generated stream through vorbisfile in seekable or streaming mode under one short-read schedule of the read callback (1 byte, random, fixed k, page-boundary +-d, inside-page-header +-d) and one schedule of requested lengths; every delivered chunk is located bit-exactly in the packet-level reference decode; non-trivial = audio delivered; distinct = distinct script text',
       nontrivial_default, COMMON_ASSUME + ['third access path (packet-level API) is the reference itself'], extra_cov=dict(read_model=readmodel, design_model=dict(states=mc['states'], transitions=mc['transitions'])), extra_viol=extra_viol)
